@@ -60,7 +60,7 @@ func (s *c19) Start(r *kit.Rng, cfg map[string]int64) {
 	if r == nil {
 		return
 	}
-	s.maxSteps = r.Range(4, 40)
+	s.maxSteps = r.Range(4, 40*kit.Depth)
 	cfg["max_steps"] = int64(s.maxSteps)
 }
 
